@@ -28,7 +28,7 @@ def main(prop, args):
             u = res['unit']
             print('[%d/%d] %s L=%s %s %s' % (done, total, u['module'], u['L'], res.get('outcomes', res.get('error', res.get('skipped'))),
                                                res.get('wall_s')), file=sys.stderr)
-    hard = units[0]['timeout'] * 2 + 60 if units else 60
+    hard = lambda u: u.get('timeout', 30) * 2 + 30
     for res in common.run_units(vfamily.unit_fn, units, hard, progress, deadline):
         rep.add_unit(res)
     return rep.finish()
